@@ -219,7 +219,10 @@ func (s *snapshotSink) done(err error) (snapshotMeta, error) {
 		verifPoint("snap.postmeta", s.snaps.dir)
 	}
 	s.snaps.mu.Lock()
-	s.snaps.index, s.snaps.term = s.meta.index, s.meta.term
+	if s.meta.index > s.snaps.index {
+		// a snapshot taken locally may complete after a newer one was installed
+		s.snaps.index, s.snaps.term = s.meta.index, s.meta.term
+	}
 	s.snaps.mu.Unlock()
 	_ = s.snaps.applyRetain() // todo: trace error
 	if verif {
